@@ -92,6 +92,24 @@ func Corpus() []CorpusCase {
 		&Element{Kind: "enum", N: &Nested{Kind: "enum", Name: "Status", Enum: &Enum{Name: "Status", Opts: []string{"OLD_UNSPECIFIED", "ACTIVE"}}}},
 		// the zero value spelled out with the prefix on: documented, not the finding
 		&Element{Kind: "enum", N: &Nested{Kind: "enum", Name: "Mode", Enum: &Enum{Name: "Mode", Opts: []string{"MODE_UNSPECIFIED", "ON"}}}}))
+	// README "Foo Example": an entity (keys, data, statuses, events) next to a declared object
+	add("readme-entity", "foo.v1", file(foo, "a",
+		object("Before", prop("x", str("string"))),
+		&Element{Kind: "entity", Entity: &Entity{Name: "Foo",
+			Keys:   []*EKey{{P: prop("fooId", key("id62")), Primary: true}},
+			Data:   []*Property{prop("name", str("string"))},
+			Status: []string{"ACTIVE", "INACTIVE"},
+			Events: []*EEvent{{Name: "Create", Fields: []*Property{prop("name", str("string"))}}, {Name: "Archive"}}}},
+		object("After", prop("state", objRef("", "FooState")))))
+	// an entity with a shard key, a non-key-typed key and a snake_case name part
+	add("entity-shard-keys", "acme.users.v1", file([]string{"acme", "users", "v1"}, "b",
+		&Element{Kind: "entity", Entity: &Entity{Name: "UserAccount2",
+			Keys: []*EKey{{P: prop("accountId", key("uuid")), Primary: true, Shard: true},
+				{P: prop("tenant_id", key("")), Shard: true},
+				{P: &Property{Name: "region", Required: true, F: str("string")}}},
+			Data:   []*Property{prop("tags", &Field{Kind: "array", Item: str("string")}), prop("kind", &Field{Kind: "enuminline", Enum: &Enum{Opts: []string{"A", "B"}}})},
+			Status: []string{"NEW"},
+			Events: []*EEvent{{Name: "NameChanged", Fields: []*Property{prop("to", obj(prop("v", str("string"))))}}}}}))
 	// two imports without alias that claim the same short name: the short name means the package imported last
 	for k := 0; k < 6; k++ {
 		v1, v2 := []string{"foo", "v1"}, []string{"foo", "v2"}
